@@ -102,7 +102,17 @@ func isSuccessReturn(in ssa.Instruction) bool {
 	return !provablyNonNil(e, r.Block())
 }
 
-func sinkSuccessReturn(in ssa.Instruction, _ *an.PathState) bool { return isSuccessReturn(in) }
+// sinkSuccessReturn: a return that may report success, judged with what the path knows: an error value that a branch
+// on the path found non-nil, or that a phi selected from a freshly built error, is not a success.
+func sinkSuccessReturn(in ssa.Instruction, st *an.PathState) bool {
+	if !isSuccessReturn(in) {
+		return false
+	}
+	if e := errOperand(in.(*ssa.Return)); e != nil && st != nil && st.NonNil(e) {
+		return false
+	}
+	return true
+}
 
 // successEdgesOfCalls collects the success edges of every call in fn satisfying pred.
 func successEdgesOfCalls(fn *ssa.Function, pred func(ssa.CallInstruction) bool) (edges []an.Edge, calls []ssa.CallInstruction) {
@@ -220,23 +230,37 @@ type step struct {
 	is   func(ssa.Instruction) bool
 }
 
+// stepState is the path environment of the instruction a step predicate is being asked about (constants selected at
+// phis on the way); predicates that need it read it, all others ignore it. Rules are evaluated sequentially.
+var stepState *an.PathState
+
+// stepAny is the environment used when seqOnAllPaths merely collects candidate instructions: path-aware predicates
+// must answer "could match on some path".
+var stepAny = &an.PathState{}
+
+func (s step) match(in ssa.Instruction, st *an.PathState) bool {
+	stepState = st
+	defer func() { stepState = nil }()
+	return s.is(in)
+}
+
 // seqOnAllPaths: on every path (under consts) from entry to a sink, the steps occur in this order.
 func seqOnAllPaths(fn *ssa.Function, consts map[ssa.Value]*ssa.Const, sink func(ssa.Instruction, *an.PathState) bool, steps []step) (ok bool, missing string, w []string) {
 	for i, s := range steps {
-		q := &an.PathQ{Fn: fn, Consts: consts, Sink: sink,
-			Cut: func(in ssa.Instruction, _ *an.PathState) bool { return s.is(in) }}
+		q := &an.PathQ{Fn: fn, Consts: consts, Sink: sink, AllConsts: true,
+			Cut: func(in ssa.Instruction, st *an.PathState) bool { return s.match(in, st) }}
 		if i == 0 {
 			q.StartEntry = true
 		} else {
 			prev := steps[i-1]
 			an.Instrs(fn, func(in ssa.Instruction) {
-				if !prev.is(in) {
+				if !prev.match(in, stepAny) {
 					return
 				}
 				// only instances that can execute under the path constraints (e.g. deleted == true)
 				target := in
-				rq := &an.PathQ{Fn: fn, Consts: consts, StartEntry: true, Sink: func(x ssa.Instruction, _ *an.PathState) bool { return x == target }}
-				if _, reach := rq.Find(); reach || len(consts) == 0 {
+				rq := &an.PathQ{Fn: fn, Consts: consts, StartEntry: true, AllConsts: true, Sink: func(x ssa.Instruction, st *an.PathState) bool { return x == target && prev.match(x, st) }}
+				if _, reach := rq.Find(); reach {
 					q.StartAfter = append(q.StartAfter, in)
 				}
 			})
@@ -334,8 +358,8 @@ func isBuiltinCall(in ssa.Instruction, name string) (*ssa.Call, bool) {
 // seqFromEdges is seqOnAllPaths starting from the given edges instead of the function entry.
 func seqFromEdges(fn *ssa.Function, start []an.Edge, consts map[ssa.Value]*ssa.Const, sink func(ssa.Instruction, *an.PathState) bool, steps []step) (ok bool, missing string, w []string) {
 	for i, s := range steps {
-		q := &an.PathQ{Fn: fn, Consts: consts, Sink: sink,
-			Cut: func(in ssa.Instruction, _ *an.PathState) bool { return s.is(in) }}
+		q := &an.PathQ{Fn: fn, Consts: consts, Sink: sink, AllConsts: true,
+			Cut: func(in ssa.Instruction, st *an.PathState) bool { return s.match(in, st) }}
 		if i == 0 {
 			q.StartEdges = start
 			if len(start) == 0 {
@@ -344,13 +368,13 @@ func seqFromEdges(fn *ssa.Function, start []an.Edge, consts map[ssa.Value]*ssa.C
 		} else {
 			prev := steps[i-1]
 			an.Instrs(fn, func(in ssa.Instruction) {
-				if !prev.is(in) {
+				if !prev.match(in, stepAny) {
 					return
 				}
 				// only instances that can execute under the path constraints (e.g. deleted == true)
 				target := in
-				rq := &an.PathQ{Fn: fn, Consts: consts, StartEntry: true, Sink: func(x ssa.Instruction, _ *an.PathState) bool { return x == target }}
-				if _, reach := rq.Find(); reach || len(consts) == 0 {
+				rq := &an.PathQ{Fn: fn, Consts: consts, StartEntry: true, AllConsts: true, Sink: func(x ssa.Instruction, st *an.PathState) bool { return x == target && prev.match(x, st) }}
+				if _, reach := rq.Find(); reach {
 					q.StartAfter = append(q.StartAfter, in)
 				}
 			})
